@@ -49,6 +49,11 @@ def main():
                         r = bool(engines[name].iterate_n(call[2]))
                     elif op == "run":
                         r = bool(engines[name].run(call[2]))
+                    elif op == "run_loop":
+                        n_slices = 0
+                        while engines[name].run(1):
+                            n_slices += 1
+                        r = False
                     elif op == "sample":
                         engines[name].sample()
                         r = None
